@@ -486,6 +486,25 @@ def check_histories(tier, seed):
                 break
     except Exception as e:
         V(f"operation-raises: allowed setter: {type(e).__name__}: {e}", [])
+    # directed: the allowed list names species, not spellings (the electron written e- in the list and E / E- in the reactions)
+    fresh()
+    try:
+        rs = [Reaction(["H", "E"], ["H-"], alpha=1.0, reaction_type=RT.GAS_TWOBODY), Reaction(["H+", "e-"], ["H"], alpha=2.0, reaction_type=RT.GAS_TWOBODY),
+              Reaction(["H-", "H+"], ["H", "H"], alpha=3.0, reaction_type=RT.GAS_TWOBODY), Reaction(["H2", "E-"], ["H", "H-"], alpha=4.0, reaction_type=RT.GAS_TWOBODY)]
+        al = ["H", "H+", "H-", "e-"]
+        net = Network(rs, allowed_species=al)
+        cases += 1
+        want = [0, 1, 2]
+        got = [k for k, r in enumerate(rs) if any(r is x for x in net.reaction_list)]
+        if got != want:
+            V(f"allowed-spelling: constructor with allowed {al} keeps reactions {got}, expected {want} (E, E- and e- are one species)", ["constructor"])
+        net2 = Network(rs)
+        net2.allowed_species = al
+        got2 = [k for k, r in enumerate(rs) if any(r is x for x in net2.reaction_list)]
+        if got2 != want:
+            V(f"allowed-spelling: setter with allowed {al} keeps reactions {got2}, expected {want}", ["setter"])
+    except Exception as e:
+        V(f"operation-raises: allowed spelling: {type(e).__name__}: {e}", [])
     # directed: the same reaction merged from two sources with its species in another order is found (and located) in every mode
     fresh()
     try:
